@@ -15,6 +15,10 @@ from rtc.props.c04 import Indexed
 TIME_LIMIT = 20  # seconds per in-process query; a query on these inputs takes milliseconds
 
 
+class TooManyHangs(Exception):
+    """three queries hit the time limit: stop the run (the failures are recorded), do not wait for thousands more"""
+
+
 def regions_of(g):
     """every (contig, a, b), 0 <= a <= b < extent of the contig"""
     out = []
@@ -49,14 +53,19 @@ def check_regions(ctx, ix, regs, fmt, section, use_file=False, vs_node=False):
     ctx.case(section, ix.fk + (tuple(regs), fmt),
              sample={"file": ix.kind(), "regions": [rstr(r) for r in regs], "nodes_under_region": nodes,
                      "aligned": sorted(al), "expected": [l.split("\t")[0] for l in want] or "CommandLineError"})
-    got = V.view(ix.gf.path, gfa=ix.gfa if fmt else None, fmt=fmt, regions=[rstr(r) for r in regs], out=ix.out(use_file), timeout=TIME_LIMIT)
+    hangs = getattr(ctx, "c05_hangs", 0)
+    limit = TIME_LIMIT if hangs == 0 else 5
+    got = V.view(ix.gf.path, gfa=ix.gfa if fmt else None, fmt=fmt, regions=[rstr(r) for r in regs], out=ix.out(use_file), timeout=limit)
     tab = V.node_table(ix.g)
     desc = "view %s%s on a %s; nodes under the region(s): %s; aligned nodes: %s; paths %s" % (
         " ".join("-r " + rstr(r) for r in regs), " -f " + fmt if fmt else "", ix.kind(),
         ["%s=%s:%d-%d" % ((n,) + tab[n]) for n in nodes], sorted(al), [r[5] for r in ix.gf.recs][:10])
     wn = [l.split("\t")[0] for l in want]
     if got[0] == "timeout":
-        ctx.fail(section, "%s: did not terminate within %d s (expected %s)" % (desc, TIME_LIMIT, wn or "CommandLineError"), case)
+        ctx.fail(section + "-hang%d" % hangs, "%s: did not terminate within %d s (expected %s)" % (desc, limit, wn or "CommandLineError"), case)
+        ctx.c05_hangs = hangs + 1
+        if ctx.c05_hangs >= 3:
+            raise TooManyHangs()
         return False
     if got[0] == "exc":
         ctx.fail(section, "%s: internal error %s (expected %s)" % (desc, got[1], wn or "CommandLineError"), case)
@@ -99,32 +108,8 @@ def check_subprocess(ctx, ix, regs, section="subprocess"):
                  % (desc, [ix.gf.recs[i][0] for i in sel], rc, [l.split("\t")[0] for l in out], err.strip().splitlines()[-1:]), case)
 
 
-def run(ctx):
-    for name, fn in sorted(defects.for_property("C05").items()):
-        try:
-            ok, detail = fn()
-        except BaseException as e:  # noqa
-            ok, detail = False, "raised %s: %s" % (type(e).__name__, e)
-        ctx.case("regression", name)
-        if not ok:
-            ctx.fail("regression", "repaired defect %s is back: %s" % (name, detail), {"type": "defect", "name": name})
-    rng = ctx.rng
-    n_graphs = 40 if ctx.quick else 5000
-    budget = 40 if ctx.quick else 700
-    cap = 120 if ctx.quick else None
-    n_sub = 4 if ctx.quick else 40
-    ctx.bound("<= %d random valid rGFAs (1-2 chromosomes of 2-5 reference segments of length 1-3, 0-3 bubbles with separated/adjacent/mixed "
-              "haplotype segments, optional inversion / self link / back link / tip) x 2 indexed GAF files each (unstable, stable; text or BGZF "
-              "at random) of 1-8 records over walks of <= 4 steps (few records, so regions over unaligned nodes and beyond the first / last "
-              "indexed node of a contig occur)" % n_graphs)
-    ctx.bound("single regions: %s (contig, a, b) with 0 <= a <= b < extent of the contig (for a haplotype contig: end of its last segment; "
-              "regions may fall in gaps between separated segments); region lists: %d random lists of 2-4 regions per file (any contigs, repeats, "
-              "overlapping); --format on 15%% of the queries; 10%% of the matching queries also compared with the real --node; "
-              "%d sub-process runs with a 60 s timeout checking the exit status; in-process calls under a %d s SIGALRM limit"
-              % ("all" if cap is None else "all, or %d sampled per file when there are more," % cap, 8 if ctx.quick else 40, n_sub, TIME_LIMIT))
+def _main_loop(ctx, rng, n_graphs, budget, cap, files, state):
     nq = 0
-    files = []
-    complete = True
     for gi in range(n_graphs):
         g = V.random_graph(rng)
         d = ctx.dir("c05")
@@ -146,7 +131,7 @@ def run(ctx):
             rs = allr
             if cap is not None and len(rs) > cap:
                 rs = rng.sample(rs, cap)
-                complete = False
+                state["complete"] = False
             for r in rs:
                 nq += 1
                 fmt = ix.fmt if rng.random() < 0.15 else None
@@ -159,8 +144,39 @@ def run(ctx):
                 check_regions(ctx, ix, lst, fmt, sec + "-multi" + ("-format" if fmt else ""), vs_node=rng.random() < 0.2)
         if ctx.out_of_time(budget):
             break
+
+
+def run(ctx):
+    for name, fn in sorted(defects.for_property("C05").items()):
+        try:
+            ok, detail = fn()
+        except BaseException as e:  # noqa
+            ok, detail = False, "raised %s: %s" % (type(e).__name__, e)
+        ctx.case("regression", name)
+        if not ok:
+            ctx.fail("regression", "repaired defect %s is back: %s" % (name, detail), {"type": "defect", "name": name})
+    rng = ctx.rng
+    n_graphs = 100 if ctx.quick else 5000
+    budget = 40 if ctx.quick else 700
+    cap = 200 if ctx.quick else None
+    n_sub = 4 if ctx.quick else 40
+    ctx.bound("<= %d random valid rGFAs (1-2 chromosomes of 2-5 reference segments of length 1-3, 0-3 bubbles with separated/adjacent/mixed "
+              "haplotype segments, optional inversion / self link / back link / tip) x 2 indexed GAF files each (unstable, stable; text or BGZF "
+              "at random) of 1-8 records over walks of <= 4 steps (few records, so regions over unaligned nodes and beyond the first / last "
+              "indexed node of a contig occur)" % n_graphs)
+    ctx.bound("single regions: %s (contig, a, b) with 0 <= a <= b < extent of the contig (for a haplotype contig: end of its last segment; "
+              "regions may fall in gaps between separated segments); region lists: %d random lists of 2-4 regions per file (any contigs, repeats, "
+              "overlapping); --format on 15%% of the queries; 10%% of the matching queries also compared with the real --node; "
+              "%d sub-process runs with a 60 s timeout checking the exit status; in-process calls under a %d s SIGALRM limit"
+              % ("all" if cap is None else "all, or %d sampled per file when there are more," % cap, 8 if ctx.quick else 40, n_sub, TIME_LIMIT))
+    files = []
+    state = {"complete": True}
+    try:
+        _main_loop(ctx, rng, n_graphs, budget, cap, files, state)
+    except TooManyHangs:
+        ctx.bound("run stopped early: three region queries did not terminate within the time limit")
     # real processes: exit status and termination
-    for k in range(n_sub):
+    for k in range(n_sub if files else 0):
         ix = rng.choice(files)
         allr = regions_of(ix.g)
         empty = [r for r in allr if not expected(ix, [r])[1]]
@@ -172,7 +188,7 @@ def run(ctx):
     return ("each case = one (graph, indexed GAF file, region list, format) query answered by the real view code vs. the records traversing "
             "(own definition) a node whose stable interval intersects a region (node set computed from the GFA); all (a,b) of every contig "
             "of a graph are enumerated%s; distinct = distinct (graph text, GAF text, compression, regions, format)"
-            % ("" if complete else " unless a graph has more than %d regions (then sampled)" % cap))
+            % ("" if state["complete"] else " unless a graph has more than %d regions (then sampled)" % cap))
 
 
 def replay(ctx, rec):
